@@ -675,6 +675,39 @@ def chk_corrupt(inp):
     return None
 
 
+def dup_attack_lists(txids):
+    """CVE-2012-2459 shapes: longer txid lists with the same merkle root (last 2^k ids repeated, when the level is odd)"""
+    n = len(txids)
+    out = []
+    k = 0
+    while (1 << k) <= n:
+        if n % (1 << k) == 0 and (n >> k) % 2 == 1 and (n >> k) > 1:
+            out.append(txids + txids[-(1 << k):])
+        k += 1
+    return out
+
+
+def chk_dup_attack(inp):
+    txids = [bytes.fromhex(t) for t in inp["txids"]]
+    root = ref_root(txids)
+    for t2 in dup_attack_lists(txids):
+        if ref_root(t2) != root:
+            return {"kind": "harness-dup-root"}          # sanity of the construction itself
+        n2 = len(t2)
+        k = n2 - len(txids)
+        for m in ([True] * n2, [i >= n2 - 2 * k for i in range(n2)], [i >= n2 - k for i in range(n2)]):
+            t, hashes, fl, _ = ref_build(t2, m)
+            try:
+                got = impl_parse_merkleblock(mb_wire(root, t, hashes, fl))
+            except Exception as e:
+                if exn_tag(e) != "E_VALUE":
+                    return {"kind": "corrupt-proof-unexpected-exception", "corruption": "dup_attack", "detail": str(e)}
+                continue
+            return {"kind": "duplicated-subtree-proof-accepted", "n": len(txids), "claimed_total": n2,
+                    "got": [g.hex()[:8] for g in got]}
+    return None
+
+
 def _block_inp(rng, coin, n):
     hdr, txbins = rand_block_parts(rng, coin, n)
     return {"coin": coin, "hdr": [hdr[0], hdr[1].hex(), hdr[2], hdr[3], hdr[4]], "txs": [t.hex() for t in txbins]}
@@ -704,6 +737,11 @@ def prop_cases(rng, tier):
         for n in (127, 128, 129, 255, 256, 257):
             inp = _block_inp(rng, "btc", n)
             yield PropCase("block", inp, (lambda inp=inp: chk_block(inp["coin"], inp["hdr"], inp["txs"])))
+    for n in range(2, 71):
+        txids = rand_hashes(rng, n)
+        if dup_attack_lists(txids):
+            inp = {"txids": [t.hex() for t in txids]}
+            yield PropCase("dup_attack", inp, (lambda inp=inp: chk_dup_attack(inp)))
     k = 0
     for txids, m, exhaustive in gen_proof_inputs(rng, tier):
         k += 1
@@ -715,6 +753,8 @@ def prop_cases(rng, tier):
 
 
 def replay_input(check, inp):
+    if check == "dup_attack":
+        return chk_dup_attack(inp)
     if check == "merkle":
         return chk_merkle(inp["hashes"], inp["hash"])
     if check == "header_fields":
@@ -775,6 +815,8 @@ def search(rng, tier, disagreements, known_ids):
             elif fn in ("post_unpack", "parse_merkleblock", "level_widths", "build", "matched"):
                 for n in (1, 2, 3, 4, 5, 6, 7):
                     txids = rand_hashes(rng, n)
+                    inp0 = {"txids": [t.hex() for t in txids]}
+                    cands.append(PropCase("dup_attack", inp0, (lambda inp0=inp0: chk_dup_attack(inp0))))
                     for m in subsets(n):
                         inp = {"txids": [t.hex() for t in txids], "matches": "".join("1" if b else "0" for b in m)}
                         cands.append(PropCase("proof", inp, (lambda inp=inp: chk_proof(inp))))
